@@ -246,7 +246,7 @@ def report_model(chk, model, clauses, first, diag, table, scen):
 
 def run(chk, args):
     thorough = chk.tier == "thorough"
-    n_sets, n_sets_2d = (20, 20) if thorough else (3, 1)
+    n_sets, n_sets_2d = (20, 20) if thorough else (3, 2)
     # VERIF_MODELS=a,b restricts the run to these models (self-tests on scratch copies)
     only = [m for m in os.environ.get("VERIF_MODELS", "").split(",") if m] or None
     if args.replay:
